@@ -1,6 +1,7 @@
 import FxpVerif.Model.Carrier
 import FxpVerif.Props.C07
 import FxpVerif.Props.C01
+import Mathlib.Tactic.FieldSimp
 /-! # C19 — no silent wrap at the 64-bit machine boundary -/
 namespace Fxp.C19
 open Fxp Fmt C07
@@ -107,6 +108,108 @@ theorem add_path_exact (x y : Fmt) (hx : x.WF) (hy : y.WF) (a b : ℤ) (ha : x.I
         intro z h1 h2; unfold FitsF53; constructor <;> [linarith [show (2:ℤ)^52 ≤ 2^53 by norm_num]; linarith [show (2:ℤ)^52 ≤ 2^53 by norm_num]]
       exact ⟨by rw [if_pos (f53 _ hb52.1 hb52.2.1)], by rw [if_pos (f53 _ hb52.2.2.1 hb52.2.2.2.1)]⟩
     · exact ⟨by rw [wrapI64_of_fits _ fs], by rw [wrapI64_of_fits _ fd]⟩
+
+/-- the Python-style remainder of two integers (sign of the divisor), as an integer. -/
+def pyMod (A B : ℤ) : ℤ := A - B * ⌊(A : ℚ) / (B : ℚ)⌋
+
+theorem pyMod_bounds (A B : ℤ) (hB : B ≠ 0) : (0 < B → 0 ≤ pyMod A B ∧ pyMod A B < B) ∧ (B < 0 → B < pyMod A B ∧ pyMod A B ≤ 0) := by
+  have hq : (B : ℚ) ≠ 0 := by exact_mod_cast hB
+  have h1 := Int.floor_le ((A : ℚ) / B)
+  have h2 := Int.lt_floor_add_one ((A : ℚ) / B)
+  have e : (A : ℚ) = (A : ℚ) / B * B := by field_simp
+  have cast : ((pyMod A B : ℤ) : ℚ) = (A : ℚ) - B * (⌊(A : ℚ) / (B : ℚ)⌋ : ℤ) := by unfold pyMod; push_cast; ring
+  constructor
+  · intro hp
+    have hpq : (0 : ℚ) < B := by exact_mod_cast hp
+    have l : (0 : ℚ) ≤ (pyMod A B : ℤ) := by rw [cast]; nlinarith
+    have u : ((pyMod A B : ℤ) : ℚ) < B := by rw [cast]; nlinarith
+    exact ⟨by exact_mod_cast l, by exact_mod_cast u⟩
+  · intro hn
+    have hnq : (B : ℚ) < 0 := by exact_mod_cast hn
+    have l : (B : ℚ) < (pyMod A B : ℤ) := by rw [cast]; nlinarith
+    have u : ((pyMod A B : ℤ) : ℚ) ≤ 0 := by rw [cast]; nlinarith
+    exact ⟨by exact_mod_cast l, by exact_mod_cast u⟩
+
+/-- **mod** (`_mod_raw` with the selection rule of add/sub, repair D20): whenever a machine carrier is kept, both aligned
+operands and their remainder fit it, so `x % y` is computed exactly; beyond that Python integers are used. -/
+theorem mod_path_exact (x y : Fmt) (hx : x.WF) (hy : y.WF) (a b : ℤ) (ha : x.InRange a) (hb : y.InRange b) (hb0 : b ≠ 0) :
+    let p := machinePath (addNeedsPyInt x y (max x.nfrac y.nfrac)) x y
+    let A := a * 2 ^ kx x y
+    let B := b * 2 ^ ky x y
+    machineResult p A = some A ∧ machineResult p B = some B ∧ machineResult p (pyMod A B) = some (pyMod A B) := by
+  intro p A B
+  have hBne : B ≠ 0 := by
+    show b * 2 ^ ky x y ≠ 0
+    exact mul_ne_zero hb0 (by positivity)
+  have hR := pyMod_bounds A B hBne
+  -- the remainder lies between 0 and B
+  have hRb : ∀ N : ℕ, -(2:ℤ) ^ N ≤ B → B ≤ 2 ^ N → -(2:ℤ) ^ N ≤ pyMod A B ∧ pyMod A B ≤ 2 ^ N := by
+    intro N h1 h2
+    have pN : (0:ℤ) < 2 ^ N := by positivity
+    rcases lt_or_gt_of_ne hBne with hneg | hpos
+    · obtain ⟨l, u⟩ := hR.2 hneg; constructor <;> omega
+    · obtain ⟨l, u⟩ := hR.1 hpos; constructor <;> omega
+  by_cases hpy : (addNeedsPyInt x y (max x.nfrac y.nfrac) || decide (64 ≤ x.nword) || decide (64 ≤ y.nword)) = true
+  · have : p = .pyint := by simp only [p, machinePath, hpy, if_true]
+    rw [this]; exact ⟨rfl, rfl, rfl⟩
+  · have hnp : addNeedsPyInt x y (max x.nfrac y.nfrac) = false := by
+      cases h : addNeedsPyInt x y (max x.nfrac y.nfrac) <;> simp_all
+    unfold addNeedsPyInt at hnp
+    simp only [Bool.or_eq_false_iff, decide_eq_false_iff_not, Bool.and_eq_false_iff, bne_eq_false_iff_eq] at hnp
+    obtain ⟨⟨_, h63⟩, hmix⟩ := hnp
+    have hb62 := aligned_bounds x y hx hy a b ha hb 62 (by omega)
+    have fits : ∀ z : ℤ, -(2:ℤ) ^ 62 ≤ z → z ≤ 2 ^ 62 → FitsI64 z := by
+      intro z h1 h2; unfold FitsI64; constructor <;> [linarith [show (2:ℤ)^62 ≤ 2^63 by norm_num]; linarith [show (2:ℤ)^62 < 2^63 by norm_num]]
+    have fA := fits A hb62.2.2.2.2.1 hb62.2.2.2.2.2.1
+    have fB := fits B hb62.2.2.2.2.2.2.1 hb62.2.2.2.2.2.2.2
+    have fR := fits _ (hRb 62 hb62.2.2.2.2.2.2.1 hb62.2.2.2.2.2.2.2).1 (hRb 62 hb62.2.2.2.2.2.2.1 hb62.2.2.2.2.2.2.2).2
+    have hp : p = (if x.signed && y.signed then Path.int64 else if !x.signed && !y.signed then Path.uint64 else Path.float64) := by
+      simp only [p, machinePath]; rw [if_neg hpy]
+    rw [hp]
+    cases hsx : x.signed <;> cases hsy : y.signed <;> simp only [Bool.and_self, Bool.and_false, Bool.false_and,
+      Bool.not_false, Bool.not_true, Bool.and_true, if_true, if_false, Bool.false_eq_true, machineResult]
+    · exact ⟨by rw [wrapI64_wrapU64 _ fA], by rw [wrapI64_wrapU64 _ fB], by rw [wrapI64_wrapU64 _ fR]⟩
+    · have h53 : ¬ (53 ≤ addBits x y (max x.nfrac y.nfrac)) := by
+        rcases hmix with h | h
+        · rw [hsx, hsy] at h; simp at h
+        · exact h
+      have hb52 := aligned_bounds x y hx hy a b ha hb 52 (by omega)
+      have f53 : ∀ z : ℤ, -(2:ℤ) ^ 52 ≤ z → z ≤ 2 ^ 52 → FitsF53 z := by
+        intro z h1 h2; unfold FitsF53; constructor <;> [linarith [show (2:ℤ)^52 ≤ 2^53 by norm_num]; linarith [show (2:ℤ)^52 ≤ 2^53 by norm_num]]
+      have r := hRb 52 hb52.2.2.2.2.2.2.1 hb52.2.2.2.2.2.2.2
+      exact ⟨by rw [if_pos (f53 A hb52.2.2.2.2.1 hb52.2.2.2.2.2.1)], by rw [if_pos (f53 B hb52.2.2.2.2.2.2.1 hb52.2.2.2.2.2.2.2)],
+             by rw [if_pos (f53 _ r.1 r.2)]⟩
+    · have h53 : ¬ (53 ≤ addBits x y (max x.nfrac y.nfrac)) := by
+        rcases hmix with h | h
+        · rw [hsx, hsy] at h; simp at h
+        · exact h
+      have hb52 := aligned_bounds x y hx hy a b ha hb 52 (by omega)
+      have f53 : ∀ z : ℤ, -(2:ℤ) ^ 52 ≤ z → z ≤ 2 ^ 52 → FitsF53 z := by
+        intro z h1 h2; unfold FitsF53; constructor <;> [linarith [show (2:ℤ)^52 ≤ 2^53 by norm_num]; linarith [show (2:ℤ)^52 ≤ 2^53 by norm_num]]
+      have r := hRb 52 hb52.2.2.2.2.2.2.1 hb52.2.2.2.2.2.2.2
+      exact ⟨by rw [if_pos (f53 A hb52.2.2.2.2.1 hb52.2.2.2.2.2.1)], by rw [if_pos (f53 B hb52.2.2.2.2.2.2.1 hb52.2.2.2.2.2.2.2)],
+             by rw [if_pos (f53 _ r.1 r.2)]⟩
+    · exact ⟨by rw [wrapI64_of_fits _ fA], by rw [wrapI64_of_fits _ fB], by rw [wrapI64_of_fits _ fR]⟩
+
+/-- the raw `%` kernel with optimal sizing **is** the Python remainder of the aligned codes. -/
+theorem mod_kernel_eq_pyMod (x y : Fmt) (a b : ℤ) :
+    rawKernel .mod (max x.nfrac y.nfrac) x y a b = ((pyMod (a * 2 ^ kx x y) (b * 2 ^ ky x y) : ℤ) : ℚ) := by
+  have hx : max x.nfrac y.nfrac - x.nfrac = ((kx x y : ℕ) : ℤ) := by unfold kx; omega
+  have hy : max x.nfrac y.nfrac - y.nfrac = ((ky x y : ℕ) : ℤ) := by unfold ky; omega
+  have ea : scale (a : ℚ) (max x.nfrac y.nfrac - x.nfrac) = ((a * 2 ^ kx x y : ℤ) : ℚ) := by
+    rw [scale_eq, hx, zpow_natCast]; push_cast; ring
+  have eb : scale (b : ℚ) (max x.nfrac y.nfrac - y.nfrac) = ((b * 2 ^ ky x y : ℤ) : ℚ) := by
+    rw [scale_eq, hy, zpow_natCast]; push_cast; ring
+  unfold rawKernel fdivR pyMod
+  simp only [ea, eb]
+  push_cast
+  rfl
+
+/-- old rule of `_mod_raw` (Python integers only for `n_frac ≥ 64`): `u30/5 % u40/40` aligns the dividend by 35 bits on
+uint64 and wraps (D20's witness). -/
+theorem old_mod_rule_wraps :
+    machineResult (machinePath (oldAddNeedsPyInt ⟨false, 30, 5⟩ ⟨false, 40, 40⟩ 40) ⟨false, 30, 5⟩ ⟨false, 40, 40⟩)
+      (585797695 * 2 ^ 35) ≠ some (585797695 * 2 ^ 35) := by decide +kernel
 
 /-- **mul**: the same for the product (no alignment shift with optimal sizing). -/
 theorem mul_path_exact (x y : Fmt) (hx : x.WF) (hy : y.WF) (a b : ℤ) (ha : x.InRange a) (hb : y.InRange b) :
